@@ -4,6 +4,7 @@ import (
 	"bytes"
 	"testing"
 
+	"github.com/ossrs/go-oryx-lib/aac"
 	"verifharness/lib/mon"
 	"verifharness/lib/refadts"
 )
@@ -15,11 +16,13 @@ func TestVerif_C11_EncoderSequences(t *testing.T) {
 	defer m.Finish(t)
 	m.Rule("encseq: one ADTS encoder instance encodes 2..8 frames in a row with raw lengths drawn from {1,2,120,255,256,2040,2041,2047,2048,3000,4088,4089,8183,8184,random} " +
 		"(so that consecutive frames differ in the high bits of the 13-bit length), SetASC called again between frames in a third of the sequences (same or other " +
-		"accepted configuration); every frame is decoded by a fresh decoder AND parsed by the reference bit extractor: raw block equal, nothing left over, " +
+		"accepted configuration), in a quarter of the remaining steps the configuration is changed by DECODING a reference-written frame of another configuration on the same instance or through the ASC() pointer (expected = what ASC() then reports); every frame is decoded by a fresh decoder AND parsed by the reference bit extractor: raw block equal, nothing left over, " +
 		"profile/index/channels of the configuration in effect; frames returned earlier must not be changed by later Encode calls; distinct = (length class of previous frame, of this frame, reconfigured)")
 	n := m.N(6000, 600000)
 	m.Require("evaluations", int64(n))
 	m.Require("frames_checked", int64(n*2))
+	m.Require("reconfigured_by_decoding_a_frame", int64(n/20))
+	m.Require("reconfigured_through_the_ASC_pointer", int64(n/20))
 	cfgs := allConfigs()
 	lens := []int{1, 2, 120, 255, 256, 2040, 2041, 2047, 2048, 3000, 4088, 4089, 8183, 8184}
 	mon.Parallel(n, func(w, i int) {
@@ -60,6 +63,32 @@ func TestVerif_C11_EncoderSequences(t *testing.T) {
 						return
 					}
 					reconf = true
+				}
+				if k > 0 && !reconf && r.Chance(1, 4) {
+					// the configuration also changes when the same instance DECODES a frame of another stream ("user can get the
+					// asc after decode ok"), or when the caller edits the configuration ASC() exposes: the next frame must report
+					// what ASC() reports at that moment — the instance's own statement of its configuration
+					if r.Bool() {
+						c2 := cfgs[r.Intn(len(cfgs))]
+						p2, _ := refadts.ADTSProfile(c2.obj)
+						h := refadts.Header{MPEG2: r.Bool(), ProtectionAbsent: true, Profile: p2, SamplingIndex: c2.sfi, Channels: c2.ch}
+						in, werr := refadts.WriteFrame(nil, h, payload(r, r.Range(1, 40)), false)
+						if werr == nil {
+							if _, _, err := enc.Decode(in); err == nil {
+								a := enc.ASC()
+								c = config{int(a.Object), int(a.SampleRate), int(a.Channels)}
+								reconf = true
+								m.Count("reconfigured_by_decoding_a_frame", 1)
+							}
+						}
+					} else {
+						c2 := cfgs[r.Intn(len(cfgs))]
+						a := enc.ASC()
+						a.SampleRate, a.Channels = aac.SampleRateIndex(c2.sfi), aac.Channels(c2.ch)
+						c = config{int(a.Object), c2.sfi, c2.ch}
+						reconf = true
+						m.Count("reconfigured_through_the_ASC_pointer", 1)
+					}
 				}
 				nraw := lens[r.Intn(len(lens))]
 				if r.Chance(1, 5) {
